@@ -100,6 +100,25 @@ void AsmContext::init()
   bytes_per_address = 1;
   in_repeat         = 0;
 
+  // Whatever a CPU directive, .big_endian, .bss or .msp430_cpu4 changed
+  // during pass 1 must not be in effect when pass 2 starts, or the lines
+  // before those directives assemble differently in the two passes.
+  parse_directive        = nullptr;
+  link_function          = nullptr;
+  segment                = SEGMENT_CODE;
+  cpu_type               = 0;
+  memory.endian          = ENDIAN_LITTLE;
+  is_dollar_hex          = false;
+  strings_have_dots      = false;
+  strings_have_slashes   = false;
+  can_tick_end_string    = false;
+  numbers_dont_have_dots = false;
+  msp430_cpu4            = false;
+  pass_1_write_disable   = false;
+  ignore_number_postfix  = false;
+  flags                  = 0;
+  extra_context          = 0;
+
   macros.reset();
   def_param_stack_count = 0;
 }
